@@ -119,7 +119,7 @@ impl Gen<'_> {
             93..=94 if self.swarm.asserts => vec![Rx::Assert(self.rng.range(1, 3).to_string())],
             95..=96 if self.swarm.node_ops && !cx.is_start && !self.pratt[cx.rule] => {
                 self.node_names += 1;
-                vec![Rx::Rename(format!("ren{}", self.node_names % 3))]
+                vec![Rx::Rename(format!("ren{}", self.node_names % 2))]
             }
             97 if self.swarm.node_ops && !cx.is_start && !self.pratt[cx.rule] => vec![Rx::Elide],
             98..=99 if self.swarm.returns && !cx.is_start && !first => vec![Rx::Return],
